@@ -59,6 +59,49 @@ func (t *policyTracer) attached(fn *ssa.Function, v ssa.Value, at ssa.Instructio
 	if found {
 		return true, nil
 	}
+	// 1b. a dominating call of a module function that stores the policy on this value on all its paths
+	for _, b := range fn.Blocks {
+		for _, ins := range b.Instrs {
+			call, ok := ins.(*ssa.Call)
+			if !ok || call.Call.IsInvoke() || ssa.Instruction(call) == at || !dominatesInstr(call, at) {
+				continue
+			}
+			g := staticCallee(call.Common())
+			if g == nil || !InModule(g) || g.Blocks == nil {
+				continue
+			}
+			for k, a := range call.Call.Args {
+				if apString(lookThrough(a)) == ap && k < len(g.Params) && t.setsOnAllPaths(g, g.Params[k]) {
+					return true, nil
+				}
+			}
+		}
+	}
+	// 1c. 'at' publishes the value (table insert) and the policy is stored right after it in the same
+	//     block, before any unlock: no reader of the table can see the state without its policy
+	if _, isUpd := at.(*ssa.MapUpdate); isUpd {
+		blk := at.Block()
+		after := false
+		for _, ins := range blk.Instrs {
+			if ins == at {
+				after = true
+				continue
+			}
+			if !after {
+				continue
+			}
+			if cc := callCommon(ins); cc != nil {
+				if f := calleeFunc(cc); f != nil && (f.Name() == "Unlock" || f.Name() == "RUnlock") {
+					break
+				}
+			}
+			if st, ok := ins.(*ssa.Store); ok {
+				if fa, ok := st.Addr.(*ssa.FieldAddr); ok && fieldOf(fa.X.Type(), fa.Field) == t.certVerify && apString(fa.X) == ap && t.want(st.Val) {
+					return true, nil
+				}
+			}
+		}
+	}
 	// 2. by origin of the value
 	switch x := v.(type) {
 	case *ssa.Parameter:
@@ -219,6 +262,26 @@ func (t *policyTracer) attached(fn *ssa.Function, v ssa.Value, at ssa.Instructio
 		}
 	}
 	return false, []string{fmt.Sprintf("%s: no assignment of %s to %s.certVerify dominates %s", FuncName(fn), t.wantDesc, ap, P.InstrPos(at))}
+}
+
+// setsOnAllPaths: g stores the wanted policy into prm.certVerify in a block that dominates every return of g.
+func (t *policyTracer) setsOnAllPaths(g *ssa.Function, prm *ssa.Parameter) bool {
+	for _, st := range storesToField(g, t.certVerify) {
+		fa := st.Addr.(*ssa.FieldAddr)
+		if lookThrough(fa.X) != ssa.Value(prm) || !t.want(st.Val) {
+			continue
+		}
+		all := true
+		for _, b := range g.Blocks {
+			if ret, ok := b.Instrs[len(b.Instrs)-1].(*ssa.Return); ok && !dominatesInstr(st, ret) {
+				all = false
+			}
+		}
+		if all {
+			return true
+		}
+	}
+	return false
 }
 
 func c01R3(c *Ctx, live map[*ssa.Function]bool) {
